@@ -102,6 +102,29 @@ CLAIMED = {
             "violating RFC 9380 condition 4: exceptional inputs leave the curve on SM2_P256 and Curve25519) and C13-2 (ep_map_swift_impl overwrites "
             "the identity it sets for exceptional parameters with a stack-dependent value).",
             "DESIGN.md §5 C13"),
+    "C05": ("Lean 4 proofs (completeness of ECDSA / EC-Schnorr / SoK / vBNN-IBS over an abstract group of prime order, (r, n-s) malleability, "
+            "RSA round trip for every residue + CRT recombination, EMSA-PSS verify = re-encode, RSASSA-PSS end to end, pairing equation = "
+            "G1 equation for every non-degenerate bilinear map, Jacobian evaluator = affine definition) + correspondence of every real "
+            "verifier / signer / key generator with independent Lean implementations of the standards on honest and systematically "
+            "altered triples (six curves, two pairing curves, three RSA paddings)",
+            "Proved in Lean, for all keys, nonces, messages: what the ECDSA / EC-Schnorr / proof-of-knowledge / vBNN-IBS signers derive is "
+            "accepted by the specification verifiers (the definitions the driver executes, over any record of group operations realising a "
+            "commutative group of prime order); (r, s) accepted implies (r, n-s) accepted; (m^d)^e = (m^e)^d = m mod pq for EVERY m when "
+            "ed = 1 mod lcm(p-1, q-1) (or phi), on the executable powMod; Garner's CRT recombination = m^d mod pq; EMSA-PSS-VERIFY (RFC 8017 "
+            "9.1.2, sLen = 0) accepts exactly the encoding of 9.1.1, and the RSASSA-PSS signature of every message verifies for every "
+            "modulus length (incl. OS2IP/I2OSP and the emBits bound); for every bilinear map non-degenerate at g2 the BLS / BB / ZSS / CL-A / "
+            "CL-C / PS pairing equations are equivalent to the G1 equations the specification decides. Class C: the verdicts of the C "
+            "verifiers — compared on ~13000 lines per run: every scheme on every selectable curve, keys from key generation, all message "
+            "length classes, both modes, every alteration class of the quantifier, malformed keys and components. PARTIAL: MPSS/MPSB, "
+            "CMLHS, MKLHS are not covered; thirteen findings (C05-1 … C05-13) are carried as known findings with repro lines and patches: "
+            "identity public keys accepted (ECDSA, EC-Schnorr, BB, ZSS, PS), RSA sig+N / wrong-length / PSS top bit / 8k+1-bit moduli / "
+            "pre-hashed length, ETRS forgery without a key, missing scalar range checks, vBNN and BASIC-padding stack overflows, PoK/SoK "
+            "verifiers returning RLC_ERR = 1 on internal errors.",
+            "Trusted: Lean kernel; specification = this check's transcription of FIPS 186-4 / SEC 1 / RFC 8017 and of the schemes' equations; "
+            "pairing non-degeneracy / bilinearity (C04) and hash-to-curve (C13) are dependencies, not checked here; G2 facts through an "
+            "unproved affine Fp2 helper on the twist parameters of the running library; nonces from the library DRBG (signatures checked, "
+            "not predicted); no model of the C control flow.",
+            "tools/ADDING_A_PROPERTY.md; findings/C05-*.md"),
     "C07": ("Lean 4 proofs (integer binary/text conversions round-trip, are canonical, decode only valid values and re-encode to the "
             "input) + correspondence of integer, field and point decoders/encoders incl. a malformed stream",
             "Proved in Lean for the model: bn_write_bin/bn_read_bin/bn_size_bin and bn_write_str/bn_read_str/bn_size_str (every radix 2..64): "
